@@ -2822,6 +2822,12 @@ RCP<const Basic> zeta(const RCP<const Basic> &s, const RCP<const Basic> &a)
             }
             if (a_ < 0)
                 return add(zeta, harmonic(-a_, s_));
+            if (a_ == 0) {
+                // zeta(s, 0) = 0**(-s) + zeta(s, 1)
+                if (s_ < 0)
+                    return zeta;
+                return ComplexInf;
+            }
             return sub(zeta, harmonic(a_ - 1, s_));
         }
     }
@@ -3345,7 +3351,7 @@ RCP<const Basic> beta(const RCP<const Basic> &x, const RCP<const Basic> &y)
             and get_den((down_cast<const Rational &>(*y)).as_rational_class())
                     == 2) {
             return div(mul(gamma_multiple_2(x), gamma_multiple_2(y)),
-                       gamma_positive_int(add(x, y)));
+                       gamma(add(x, y)));
         }
     }
     return Beta::from_two_basic(x, y);
